@@ -393,6 +393,9 @@ private:
             }
         }
         // initialize handles_ vector
+        // forget the handles of keys that were in the heap before build_heap()
+        // replaced its contents: only the keys in heap_ are present now
+        std::fill(handles_.begin(), handles_.end(), not_present());
         handles_.resize(
             std::max(handles_.size(), static_cast<size_t>(max_key) + 1),
             not_present());
